@@ -15,6 +15,7 @@ Template directives (each on its own line, starting with //@):
     //@ret NAME                     `-> T` becomes `-> (NAME: T)`
     //@sig                          following lines go between signature and body
     //@loop K                       following lines go between the K-th loop header and its `{`
+    //@loopend K                    following lines go right before the closing brace of the K-th loop's body
     //@open                         following lines go right after the body's opening brace
     //@close                        following lines go right before the body's closing brace
     //@at /regex/ [nth=K] before|after|replace   following lines go before/after/instead of the matching body line
@@ -176,6 +177,9 @@ class Unit:
             elif bs.startswith('//@close'):
                 cur = {'kind': 'close', 'lines': []}
                 splices.append(cur)
+            elif bs.startswith('//@loopend'):
+                cur = {'kind': 'loopend', 'k': int(bs.split()[1]), 'lines': []}
+                splices.append(cur)
             elif bs.startswith('//@loop'):
                 cur = {'kind': 'loop', 'k': int(bs.split()[1]), 'lines': []}
                 splices.append(cur)
@@ -312,6 +316,10 @@ class Unit:
                 inserts.append((1, sp))
             elif sp['kind'] == 'close':
                 inserts.append((len(body) - 1, sp))
+            elif sp['kind'] == 'loopend':
+                if len(loops) < sp['k']:
+                    raise AnchorLost('fn %s: loop %d not found (have %d)' % (name, sp['k'], len(loops)))
+                inserts.append((loops[sp['k'] - 1]['close'], sp))
             elif sp['kind'] == 'loop':
                 if len(loops) < sp['k']:
                     raise AnchorLost('fn %s: loop %d not found (have %d)' % (name, sp['k'], len(loops)))
